@@ -84,14 +84,15 @@ def altitudeDelta (m : Msg) : Option Int :=
 /-- `altitude_gnss` -/
 def altitudeGnss (m : Msg) : Option Nat := rangeValue m 49 60
 
-/-- `squawk` -/
-def squawk (m : Msg) : Option Nat :=
-  let code := maCode m
-  some (
+/-- the arithmetic of `squawk` on the working code -/
+def squawkOfCode (code : Nat) : Nat :=
     ((((code >>> 8) &&& 1) <<< 2) ||| (((code >>> 10) &&& 1) <<< 1) ||| ((code >>> 12) &&& 1)) * 1000
     + ((((code >>> 3) &&& 1) <<< 2) ||| (((code >>> 5) &&& 1) <<< 1) ||| ((code >>> 7) &&& 1)) * 100
     + ((((code >>> 9) &&& 1) <<< 2) ||| (((code >>> 11) &&& 1) <<< 1) ||| ((code >>> 13) &&& 1)) * 10
-    + ((((code >>> 2) &&& 1) <<< 2) ||| (((code >>> 4) &&& 1) <<< 1) ||| ((code >>> 6) &&& 1)))
+    + ((((code >>> 2) &&& 1) <<< 2) ||| (((code >>> 4) &&& 1) <<< 1) ||| ((code >>> 6) &&& 1))
+
+/-- `squawk` -/
+def squawk (m : Msg) : Option Nat := some (squawkOfCode (maCode m))
 
 /-- `ia5`; blank = not a character of the set -/
 def ia5 (ch : Nat) : Char :=
